@@ -38,6 +38,9 @@ pub struct ActorScen {
     /// C16: histories biased to open / close / drop / re-import; only the replies that show
     /// whether a removal was refused or went through are judged
     pub removal_focus: bool,
+    /// C06: disk-backed histories biased to writes and flushes that all end in a crash; only the
+    /// reopened crash image is judged
+    pub crash_focus: bool,
 }
 
 #[derive(Serialize, Deserialize, Clone, Debug)]
@@ -83,6 +86,9 @@ pub enum AStep {
     Consume { n: u8 },
     /// drop the oldest open stream without consuming it
     DropStream,
+    /// kill the process now (`settle`: after the actor has worked through its inbox); the disk
+    /// keeps everything written (L1) or only what was synced (L2). Ends the run.
+    Crash { l2: bool, settle: bool },
 }
 
 #[derive(Serialize, Deserialize, Clone, Debug)]
@@ -179,7 +185,7 @@ struct Stream {
 impl Scenario for ActorScen {
     type Plan = ActorPlan;
     fn name(&self) -> String {
-        if self.cap_focus { "actor-capability".into() } else if self.removal_focus { "actor-removal".into() } else { "actor".into() }
+        if self.cap_focus { "actor-capability".into() } else if self.removal_focus { "actor-removal".into() } else if self.crash_focus { "actor-crash".into() } else { "actor".into() }
     }
 
     fn gen(&self, rng: &mut Rng, tier: Tier) -> ActorPlan {
@@ -189,6 +195,11 @@ impl Scenario for ActorScen {
         let n = rng.urange(6, tier.pick(40, 60));
         let mut steps = Vec::new();
         let mut shut = false;
+        if self.crash_focus {
+            for d in 0..docs {
+                steps.push(AStep::Send { client: 0, req: Req::Open { d, sync: true, sub: false } });
+            }
+        }
         for i in 0..n {
             let d = rng.below(docs as u64) as u8;
             let client = rng.below(clients as u64) as u8;
@@ -198,6 +209,9 @@ impl Scenario for ActorScen {
                 *rng.pick(&[0u64, 1, 2, 6, 12, 13, 14, 15, 18, 36, 36, 36, 36, 37, 37, 20, 32, 33, 33, 38, 39])
             } else if self.removal_focus {
                 *rng.pick(&[0u64, 1, 2, 3, 6, 7, 12, 13, 26, 33, 34, 36, 38, 38, 38, 38, 39])
+            } else if self.crash_focus {
+                // opens, writes, deletions, remote inserts, reconciliation, reads that commit, flushes
+                *rng.pick(&[0u64, 0, 1, 6, 12, 13, 14, 15, 16, 17, 18, 19, 20, 21, 24, 25, 29, 26, 38, 39, 39, 40, 42])
             } else {
                 rng.below(46)
             };
@@ -216,13 +230,13 @@ impl Scenario for ActorScen {
                 33..=35 => Req::GetState { d },
                 36 => Req::Import { d, write: rng.chance(1, 2) },
                 37 => Req::ExportSecret { d },
-                38 => if rng.chance(1, 3) || self.removal_focus { Req::Drop { d } } else { Req::Flush },
+                38 => if (rng.chance(1, 3) && !self.crash_focus) || self.removal_focus || (self.crash_focus && rng.chance(1, 8)) { Req::Drop { d } } else { Req::Flush },
                 40 => Req::SetPolicy { d, p: gen_policy(rng) },
                 41 => Req::GetPolicy { d },
                 42 | 43 => Req::RegisterPeer { d, peer: rng.below(7) as u8 },
                 44 => Req::GetPeers { d },
                 45 => Req::HasNews { d, a: rng.below(3) as u8, ts: rng.range(0, 14) },
-                _ => if i > n / 2 && rng.chance(1, 3) { Req::Shutdown } else { Req::Flush },
+                _ => if i > n / 2 && rng.chance(1, 3) && !self.crash_focus { Req::Shutdown } else { Req::Flush },
             };
             if matches!(req, Req::Shutdown) {
                 if shut { continue; }
@@ -243,13 +257,21 @@ impl Scenario for ActorScen {
                 _ => {}
             }
         }
-        steps.push(AStep::Await);
+        let backend = if rng.chance(1, 2) && !self.crash_focus { Backend::Mem } else { Backend::Disk };
+        if backend == Backend::Disk && !self.cap_focus && !self.removal_focus && (self.crash_focus || rng.chance(1, 3)) {
+            if rng.chance(1, 2) {
+                steps.push(AStep::Await);
+            }
+            steps.push(AStep::Crash { l2: rng.chance(2, 3), settle: rng.chance(1, 2) });
+        } else {
+            steps.push(AStep::Await);
+        }
         let read_only = if self.cap_focus || rng.chance(1, 3) { rng.below(4) as u8 } else { 0 };
-        ActorPlan { seed: rng.next_u64(), backend: if rng.chance(1, 2) { Backend::Mem } else { Backend::Disk }, docs, steps, read_only }
+        ActorPlan { seed: rng.next_u64(), backend, docs, steps, read_only }
     }
 
     fn exec(&self, plan: &ActorPlan, cx: &mut Cx) -> Res {
-        block_on_sim(plan.seed, run(plan, cx, self.cap_focus, self.removal_focus))
+        block_on_sim(plan.seed, run(plan, cx, self.cap_focus, self.removal_focus, self.crash_focus))
     }
 
     fn shrink(&self, plan: &ActorPlan) -> Vec<ActorPlan> {
@@ -275,7 +297,7 @@ impl Scenario for ActorScen {
     }
 
     fn rule(&self) -> String {
-        "A run is 6-60 requests from 1-3 clients over 1-2 documents (open ±sync ±subscribe, close, set-sync, insert, delete, remote insert, reconciliation, get-exact, get-many streams with capacity 1-4 consumed late, subscribe, get-state, import, export, drop, flush, set/get download policy, register/list useful peers, has-news, shutdown), pipelined in plan-chosen batches; faults: reply receiver dropped before the answer, stream dropped half-way, virtual-time advances across the 500 ms flush timer, shutdown with requests queued behind it. Non-trivial: a fault fired or a gate (not open / sync off / read-only) was exercised.".into()
+        "A run is 6-60 requests from 1-3 clients over 1-2 documents (open ±sync ±subscribe, close, set-sync, insert, delete, remote insert, reconciliation, get-exact, get-many streams with capacity 1-4 consumed late, subscribe, get-state, import, export, drop, flush, set/get download policy, register/list useful peers, has-news, shutdown), pipelined in plan-chosen batches; faults: reply receiver dropped before the answer, stream dropped half-way, virtual-time advances across the 500 ms flush timer, shutdown with requests queued behind it; a third of the disk-backed runs end in a crash (all writes / synced writes only survive), after which the reopened image must show the state after some request not older than the last acknowledged flush. Non-trivial: a fault fired or a gate (not open / sync off / read-only) was exercised.".into()
     }
 }
 
@@ -585,9 +607,11 @@ fn model_apply(m: &mut [MDoc], req: &Req, clock: u64, alive: &mut bool, stream_e
     }
 }
 
-fn check_reply_focus(idx: usize, req: &Req, expect: &Expect, reply: Reply, focus: (bool, bool)) -> Res<Option<iroh_docs::store::Store>> {
-    let (cap_focus, removal_focus) = focus;
-    let judged = if cap_focus {
+fn check_reply_focus(idx: usize, req: &Req, expect: &Expect, reply: Reply, focus: (bool, bool, bool)) -> Res<Option<iroh_docs::store::Store>> {
+    let (cap_focus, removal_focus, crash_focus) = focus;
+    let judged = if crash_focus {
+        false
+    } else if cap_focus {
         matches!(req, Req::InsertLocal { .. } | Req::DeletePrefix { .. } | Req::ExportSecret { .. } | Req::Import { .. } | Req::Shutdown)
     } else if removal_focus {
         matches!(req, Req::Drop { .. } | Req::Open { .. } | Req::GetState { .. } | Req::InsertLocal { .. } | Req::GetExact { .. } | Req::Import { .. } | Req::Shutdown)
@@ -691,9 +715,9 @@ fn finish_stream(s: &Stream) -> Res {
     Ok(())
 }
 
-async fn run(plan: &ActorPlan, cx: &mut Cx, cap_focus: bool, removal_focus: bool) -> Res {
-    let focus = (cap_focus, removal_focus);
-    let cap_focus = cap_focus || removal_focus; // neither mode judges streams or the returned store
+async fn run(plan: &ActorPlan, cx: &mut Cx, cap_focus: bool, removal_focus: bool, crash_focus: bool) -> Res {
+    let focus = (cap_focus, removal_focus, crash_focus);
+    let cap_focus = cap_focus || removal_focus || crash_focus; // these modes do not judge streams or the returned store
     let w = world();
     let mut sut = Sut::new(plan.backend)?;
     let mut m: Vec<MDoc> = vec![MDoc::default(); crate::world::N_DOCS];
@@ -717,8 +741,15 @@ async fn run(plan: &ActorPlan, cx: &mut Cx, cap_focus: bool, removal_focus: bool
     let mut idx = 0usize;
     let mut returned: Option<iroh_docs::store::Store> = None;
     let mut last_by_client: BTreeMap<u8, usize> = BTreeMap::new();
+    // entries of every document after each request, in send order (index = request number), and
+    // the number of the last request known to be durable (an acknowledged flush)
+    let mut snapshots: Vec<Vec<RefDoc>> = vec![m.iter().map(|d| d.doc.clone()).collect()];
+    let mut flushed_upto = 0usize;
 
-    for step in &plan.steps {
+    // a crash after a shutdown (or without a disk) is just the end of the run
+    let has_shutdown = plan.steps.iter().any(|s| matches!(s, AStep::Send { req: Req::Shutdown, .. } | AStep::SendDropReply { req: Req::Shutdown, .. }));
+    let steps: Vec<AStep> = plan.steps.iter().map(|s| if matches!(s, AStep::Crash { .. }) && (has_shutdown || disk.is_none()) { AStep::Await } else { s.clone() }).collect();
+    for step in &steps {
         match step {
             AStep::Send { client, req } | AStep::SendDropReply { client, req } => {
                 let drop_reply = matches!(step, AStep::SendDropReply { .. });
@@ -742,6 +773,7 @@ async fn run(plan: &ActorPlan, cx: &mut Cx, cap_focus: bool, removal_focus: bool
                             }
                         }
                         idx += 1;
+                        snapshots.push(m.iter().map(|d| d.doc.clone()).collect());
                         let before = m[*d as usize].handles;
                         let r = h.drop_replica(world().doc_id(*d)).await;
                         cx.ev("send", format!("c{client} #{idx} {req:?} (handles {before}) -> ok={}", r.is_ok()));
@@ -759,6 +791,7 @@ async fn run(plan: &ActorPlan, cx: &mut Cx, cap_focus: bool, removal_focus: bool
                 idx += 1;
                 let mut stream_expect = None;
                 let mut expect = model_apply(&mut m, req, clock, &mut alive, &mut stream_expect, cx);
+                snapshots.push(m.iter().map(|d| d.doc.clone()).collect());
                 if matches!(req, Req::GetMany { .. }) && matches!(expect, Expect::Err) {
                     // get_many only reports whether the request could be queued
                     expect = Expect::Any;
@@ -813,6 +846,9 @@ async fn run(plan: &ActorPlan, cx: &mut Cx, cap_focus: bool, removal_focus: bool
                     };
                     let _ = (i, &mut order_ok);
                     cx.ev("reply", format!("#{idx} {}", match &reply { Reply::Store(_) => "store".to_string(), r => format!("{r:?}").chars().take(80).collect() }));
+                    if matches!(req, Req::Flush) && matches!(reply, Reply::Unit(Ok(()))) {
+                        flushed_upto = flushed_upto.max(idx);
+                    }
                     if let Some(st) = check_reply_focus(idx, &req, &expect, reply, focus)? {
                         returned = Some(st);
                     }
@@ -867,6 +903,49 @@ async fn run(plan: &ActorPlan, cx: &mut Cx, cap_focus: bool, removal_focus: bool
                         finish_stream(&s)?;
                     }
                 }
+            }
+            AStep::Crash { l2, settle } => {
+                let Some(disk) = disk.as_ref() else { continue };
+                if !alive {
+                    continue;
+                }
+                if *settle {
+                    barrier().await;
+                }
+                let img = disk.crash(if *l2 { crate::disk::Loss::L2 } else { crate::disk::Loss::L1 });
+                cx.fault(if *l2 { "crash_L2" } else { "crash_L1" });
+                cx.ev("crash", format!("l2={l2} settle={settle} requests={idx} flushed_upto={flushed_upto}"));
+                node.task.abort();
+                drop(pending);
+                drop(streams);
+                barrier().await;
+                let mut re = Sut::from_image(img).map_err(|e| Violation::new("crash-image/open-fails", format!("the store does not open after a crash: {e}")))?;
+                let mut got = Vec::new();
+                for d in 0..plan.docs {
+                    got.push(dump(re.store(), d).map_err(harness)?.doc);
+                }
+                // the image must show the documents as they were after some request that is not
+                // older than the last acknowledged flush (requests are applied whole and in order)
+                let fits = |k: usize| (0..plan.docs as usize).all(|d| snapshots[k][d] == got[d]);
+                match (flushed_upto..snapshots.len()).find(|k| fits(*k)) {
+                    Some(k) => {
+                        if k < idx {
+                            cx.probe("crash_lost_unflushed_requests");
+                        }
+                        if flushed_upto > 0 {
+                            cx.probe("crash_after_acknowledged_flush");
+                        }
+                    }
+                    None => {
+                        let older = (0..flushed_upto).rev().find(|k| fits(*k));
+                        let shown: Vec<String> = got.iter().map(|d| d.short()).collect();
+                        return Err(match older {
+                            Some(k) => Violation::new("crash-image/lost-flushed", format!("after the crash the store shows the state after request #{k}, but a flush acknowledged after request #{flushed_upto} had made everything up to there durable: {shown:?}")),
+                            None => Violation::new("crash-image/no-such-state", format!("after the crash the store shows {shown:?}, which is not the state after any request between the last acknowledged flush (#{flushed_upto}) and the crash (#{idx})")),
+                        });
+                    }
+                }
+                return Ok(());
             }
             AStep::DropStream => {
                 if !streams.is_empty() {
